@@ -507,6 +507,14 @@ def edit_catalogue(prog, rng):
                         new = rng.choice([v for v in LIT_VALUES if v != e[1]])
                         find_func(p2, mod, name)["stmts"][i]["pos"][j] = ["lit", new]
                         out.append(("literal", {"fn": [mod, name], "stmt": i, "pos": j}, p2))
+            elif st["k"] == "call":
+                # a literal argument of a PLAIN call (also one that binds a parameter with a default: finding F30)
+                for j, e in enumerate(st["args"]):
+                    if e[0] == "lit":
+                        p2 = copy.deepcopy(prog)
+                        new = LIT_VALUES[(LIT_VALUES.index(e[1]) + 1 + j) % len(LIT_VALUES)] if e[1] in LIT_VALUES else LIT_VALUES[0]
+                        find_func(p2, mod, name)["stmts"][i]["args"][j] = ["lit", new]
+                        out.append(("literal", {"fn": [mod, name], "stmt": i, "arg": j, "plain_call": True}, p2))
     # edits outside every cone
     p2 = copy.deepcopy(prog)
     m0 = sorted(p2["modules"])[0]
